@@ -71,7 +71,6 @@ CLAIM = dict(
 
 THEOREMS = ["nnid_range", "fill_wellformed", "fill_loads_exactly", "attempts_bounded",
             "load_sound", "load_error_exact", "resend_exact",
-<<<<<<< HEAD
             "count_shortcut_counterexample", "readback_counterexample", "block_count_overflow_example",
             # region-compression contract discharged by C12 (no CompressOK hypothesis)
             "compress_contract_discharged", "compressC12_eq", "fill_wellformed_c12", "load_sound_c12",
@@ -84,10 +83,7 @@ THEOREMS = ["nnid_range", "fill_wellformed", "fill_loads_exactly", "attempts_bou
             # the stale-waiter findings, sharply (Props/C09Stale.lean)
             "postOk_false_iff", "count_masks", "load_sound_iff_preclean_needed",
             "postErr_false_iff", "load_error_iff_preclean_needed"]
-=======
-            "count_shortcut_counterexample", "readback_counterexample", "block_count_overflow_example"]
 THEOREMS += ['gen_get_next_nn_id']   # translator tie: generated function bodies = model (Props/C09Gen.lean)
->>>>>>> gen-eq
 
 RULE = ("cases = (machine of 1-40 chips: rectangles at several origins incl. aligned 4x4/8x8 blocks, scattered chips up to "
         "coordinate 255; 1-3 binaries of length around multiples of the buffer (buffer in {4,8,16,64,128,256}); core sets "
